@@ -333,3 +333,25 @@ Proof.
   - apply in_map_iff. exists (a, v). auto.
 Qed.
 End Reorg.
+
+(* ---------- multi-agent sample: the value reported for (field, agent, sample j) is the stored one ---------- *)
+Section MASample.
+Context {X : Type}.
+
+Lemma ma_sample_spec (mem : list (list (@sfield X))) idx nf agents fi a j i e f :
+  fi < nf -> nth_error agents (j) = Some a -> nth_error idx i = Some e ->
+  nth_error mem e = Some f ->
+  exists row vals, nth_error (ma_sample mem idx nf agents) fi = Some row /\
+    nth_error row j = Some (a, vals) /\
+    nth_error vals i = Some (match nth_error f fi with Some fd => lookup a fd | None => None end).
+Proof.
+  intros Hfi Ha Hi He. unfold ma_sample.
+  eexists; eexists. split; [|split].
+  - rewrite nth_error_map.
+    assert (E : nth_error (seq 0 nf) fi = Some fi).
+    { rewrite nth_error_nth' with (d := 0) by (rewrite seq_length; auto). rewrite seq_nth by auto. reflexivity. }
+    rewrite E. reflexivity.
+  - rewrite nth_error_map, Ha. reflexivity.
+  - rewrite nth_error_map, Hi. cbn. rewrite He. reflexivity.
+Qed.
+End MASample.
